@@ -75,7 +75,7 @@ func CheckSingleWriter(res *ChurnResult) (findings []Finding, uncertainKeys int,
 	}
 	sort.Ints(clients)
 	add := func(key, what string, o OpRec, m *keyModel) {
-		findings = append(findings, Finding{Key: key, What: what, Witness: map[string]any{"op": o, "model_value": m.value, "model_children": setString(m.children), "last_ack": m.lastAck, "member_log_tail": tail(res.MemberLog, 30)}})
+		findings = append(findings, Finding{Key: key, What: what, Witness: map[string]any{"op": o, "model_value": m.value, "model_children": setString(m.children), "last_ack": m.lastAck, "member_log": res.MemberLog, "hook_log": res.HookLog, "store_events": storeEvents(res, o.Key+"/")}})
 	}
 	for _, c := range clients {
 		ops := per[c]
